@@ -401,7 +401,7 @@ fn explore(ctx: &Ctx) -> Outcome {
 fn scale_cases() -> Vec<Case> {
     let mut f5: Vec<Case> = Vec::new();
     for cfg in CFGS {
-        for n in [255usize, 256, 257, 65_535, 65_536, 70_001] {
+        for n in util::ladder(70_001).into_iter().chain([70_001]) {
             let unit = if cfg.fmt == Fmt::Unicode { "aé日😀" } else { "a日ｿ" };
             let m: String = unit.chars().cycle().take(n).collect();
             f5.push(Case { cfg, title: "T".into(), entries: vec![("before".into(), "b".into()), ("LONG".into(), m), ("after".into(), "a".into())], loaded: None });
@@ -413,7 +413,7 @@ fn scale_cases() -> Vec<Case> {
             let msg = if cfg.fmt == Fmt::ShiftJis { long.clone() } else { "m".to_string() };
             f5.push(Case { cfg, title: long.clone(), entries: vec![(format!("K{}", long), msg), ("after".into(), "a".into())], loaded: None });
         }
-        for n in [255usize, 256, 257, 66_000] {
+        for n in util::ladder(66_000).into_iter().chain([66_000]) {
             f5.push(Case { cfg, title: "many".into(), entries: (0..n).map(|i| (format!("MID_{:05}", i), format!("m{}", i % 97))).collect(), loaded: None });
         }
     }
